@@ -351,7 +351,16 @@ class Exec:
         st.heap['f:' + field] = z3.Store(arr, rv(recv.t), val.t)
 
     def seq_of(self, st, v):
-        return z3.Select(self.harr(st, '$seq'), rv(v.t if isinstance(v, Val) else v))
+        """element sequence of a list or tuple value (tuples are immutable: `tup`, lists live in the heap array $seq)"""
+        t = v.t if isinstance(v, Val) else v
+        ty = v.ty if isinstance(v, Val) else None
+        if ty == 'seq':
+            return t
+        if ty == 'tuple':
+            return tup(rv(t))
+        if ty == 'list':
+            return z3.Select(self.harr(st, '$seq'), rv(t))
+        return z3.If(typ(rv(t)) == 3, tup(rv(t)), z3.Select(self.harr(st, '$seq'), rv(t)))
 
     def set_seq(self, st, v, s):
         st.heap['$seq'] = z3.Store(self.harr(st, '$seq'), rv(v.t), s)
@@ -364,7 +373,10 @@ class Exec:
 
     def new_list(self, st, elems_seq, kind='list'):
         r = self.new_obj(st, kind)
-        st.heap['$seq'] = z3.Store(self.harr(st, '$seq'), rv(r), elems_seq)
+        if kind == 'tuple':
+            st.assume(tup(rv(r)) == elems_seq)
+        else:
+            st.heap['$seq'] = z3.Store(self.harr(st, '$seq'), rv(r), elems_seq)
         return Val(r, kind)
 
     def new_dict(self, st):
@@ -400,7 +412,7 @@ class Exec:
 
         def ref_truth(x):
             return z3.If(z3.Or(typ(V.rv(x)) == 1, typ(V.rv(x)) == 3),
-                         z3.Length(z3.Select(self.harr(st, '$seq'), V.rv(x))) > 0,
+                         z3.Length(self.seq_of(st, x)) > 0,
                          z3.If(typ(V.rv(x)) == 2, z3.Length(z3.Select(self.harr(st, '$dkeys'), V.rv(x))) > 0, True))
         return truthy(t, ref_truth)
 
@@ -625,6 +637,7 @@ class Exec:
             for k, v in lit.items():
                 st.assume(z3.Select(val, self.e_Constant(ast.Constant(k), st).t) == self.e_Constant(ast.Constant(v), st).t)
             st.assume(typ(rv(ref.t)) == 2)
+            st.assume(z3.Select(self.harr(st, '$dkeys'), rv(ref.t)) == self.seq_lit([Val(k) for k in keys]))
 
     # ---- operators
     def e_BoolOp(self, e, st):
@@ -984,7 +997,7 @@ class Exec:
             isd = z3.And(is_r(base.t), typ(rv(base.t)) == 2)
             iss = is_s(base.t)
             self.raise_if(st, z3.Not(z3.Or(isl, isd, iss)), 'TypeError', 'safe/type-subscript', e)
-            q = z3.Select(self.harr(st, '$seq'), rv(base.t))
+            q = self.seq_of(st, base.t)
             n = z3.If(iss, z3.Length(sv(base.t)), z3.Length(q))
             i = iv(idx.t)
             self.raise_if(st, z3.And(z3.Not(isd), z3.Not(is_i(idx.t))), 'TypeError', 'safe/type-index', e)
